@@ -1,4 +1,5 @@
 INIT Init
 NEXT Next
 INVARIANT Agreement
+INVARIANT DomainAgreement
 CHECK_DEADLOCK FALSE
